@@ -11,7 +11,7 @@ CONSTANT MaxDepth, ReqSet
 
 Pids == {"UNSUPPORTED", "IBC", "CCTP", "HYP", "INT", "P5", "P99", "N0", "N1", "N2", "N3", "N4", "PNEG", "PUNKNOWN"}
 CctpAttrs == { [DefFw EXCEPT !.at = "CCTP", !.dom = dm, !.mint = m, !.caller = c, !.to = "NONE"] :
-                 dm \in {0, 1}, m \in {"MINT_A", "MINT_B"}, c \in {"NONE", "CALLER_A", "CALLER_B"} }
+                 dm \in {0, 1}, m \in {"MINT_A", "MINT_B"}, c \in {"NONE", "CALLER_A", "CALLER_B", "CALLER_ZERO"} }
 HypAttrs == { [DefFw EXCEPT !.at = "HYP", !.tok = "T1", !.dom = dm, !.rcp = r, !.hook = h, !.gas = g, !.maxfee = mf, !.meta = mt, !.to = "NONE"] :
                  dm \in {1, 2}, r \in {"R_A", "R_B"}, h \in {"NONE", "H_NOOP"}, g \in {0, 77}, mf \in {0, 5}, mt \in {"NONE", "0xAB"} }
 IntAttrs == { [DefFw EXCEPT !.at = "INT", !.to = t] : t \in {"U", "F2", "M"} }
